@@ -116,5 +116,11 @@ package store
 //@   requires [wiring] s.db != nil
 //@   observe put := call Put
 //@   modifies durable s.db.kv[dskey(KeyState())], durable s.db.kvHas[dskey(KeyState())], durable s.db.size
+//@   observe tp := call ToProto
+//@   observe ma := call Marshal
 //@   ensures [one-write] put.count <= 1
 //@   ensures [written] err == nil ==> s.db.kvHas[dskey(KeyState())]
+// a successful UpdateState has written the record, and what it wrote is the encoding of the state it
+// was given (reads return the last value written): no shortcut decides that the stored record is
+// "already the same"
+//@   ensures [writes-the-given-state] err == nil ==> put.count == 1 && put.res0 == nil && tp.count == 1 && ma.count == 1 && ma.res1 == nil && put.arg3 == ma.res0 && ma.arg0.val == tp.res0
